@@ -68,6 +68,14 @@ def applyAll (file : Bytes) (steps : List MicroStep) : Bytes := steps.foldl Micr
 def addAlt (o : OnDisk) (hs : List Nat) : OnDisk :=
   { o with file := applyAll o.file (o.addSteps hs), count := o.count + 1 }
 
+/-- micro-steps of `clear()`: every byte of the bit array is zeroed through the mapping, then the
+    count 0 is written -/
+def clearSteps (o : OnDisk) : List MicroStep :=
+  (List.range o.bloomLength).map (fun i => MicroStep.storeByte i 0) ++ [o.updateStep 0]
+
+/-- `clear()` run to completion -/
+def clear (o : OnDisk) : OnDisk := { o with file := applyAll o.file o.clearSteps, count := 0 }
+
 /-- the visible file after every prefix of the micro-steps of an operation (crash points) -/
 def prefixes (file : Bytes) : List MicroStep → List Bytes
   | [] => [file]
